@@ -338,3 +338,15 @@ def replay_pow(scalars=()):
         if 'MISMATCH' in r:
             return True, {'field': 'gt', 'exponent': '%064x' % kk, 'mismatch': r[:200]}
     return False, {}
+
+
+def replay_finalexp():
+    """native: a wrong final exponentiation shows as pairing(G1, G2)^r != 1 or as pairing != fast_pairing"""
+    exe = kani.build_replay('release')
+    if not exe:
+        return False, {'error': 'replay build failed'}
+    p = subprocess.run([exe, '--finalexp'], capture_output=True, text=True, timeout=600)
+    out = (p.stdout + p.stderr).strip()
+    if 'MISMATCH' in out or 'PANIC' in out:
+        return True, {'mismatch': out.splitlines()[-1][:300]}
+    return False, {'note': out[-200:]}
